@@ -377,7 +377,17 @@ class EffectAnalyser:
             out.append(Effect(t, node, info, origin))
 
         nodes = A.walk_local(fn) if stmts is None else A.walk_stmts(stmts)
-        consumed = {}   # id(expr) -> materialiser name, for args of materialisers
+        # local aliases of mutable stage attributes:  buf = self._buf ; buf.append(x)
+        alias = {}
+        if ctx.selfname is not None:
+            for a_n in A.walk_local(fn):
+                if isinstance(a_n, ast.Assign) and len(a_n.targets) == 1 and isinstance(a_n.targets[0], ast.Name):
+                    v = a_n.value
+                    while isinstance(v, ast.Subscript):
+                        v = v.value
+                    if A.is_self_attr(v, None, ctx.selfname) and v.attr not in (INPUT_ATTR, INPUTS_ATTR) \
+                            and ctx.kind(a_n.value) is None:
+                        alias[a_n.targets[0].id] = v.attr
         for n in nodes:
             if isinstance(n, ast.Call):
                 dn = A.dotted(n.func)
@@ -432,6 +442,9 @@ class EffectAnalyser:
                                 isinstance(a0, ast.Attribute) and not ctx.is_self(a0.value)):
                             a0 = a0.value
                         eff('WRITE_SELF', n, (a0.attr if isinstance(a0, ast.Attribute) else '?', 'mutcall:' + attr))
+                    if attr in MUTATORS and isinstance(root, ast.Name) and root.id in alias \
+                            and not ctx.is_self(root):
+                        eff('WRITE_SELF', n, (alias[root.id], 'alias-mutcall:' + attr))
                     # rng draws
                     if attr in RNG_METHODS:
                         rdn = A.dotted(n.func.value)
@@ -444,6 +457,8 @@ class EffectAnalyser:
                             a = n.args[0]
                             if A.is_self_attr(a, None, ctx.selfname or '\0'):
                                 eff('WRITE_SELF', n, (a.attr, 'inplace-arg:shuffle'))
+                            elif isinstance(a, ast.Name) and a.id in alias:
+                                eff('WRITE_SELF', n, (alias[a.id], 'alias-inplace-arg:shuffle'))
                 if dn is not None:
                     if full in META_FUNCS and n.args and ctx.kind(n.args[0]) in ('DS', 'SELF'):
                         if ctx.kind(n.args[0]) == 'SELF' and full == 'len' and cls is not None \
@@ -525,7 +540,7 @@ class EffectAnalyser:
                 targets = n.targets if isinstance(n, (ast.Assign, ast.Delete)) else [n.target]
                 for t in targets:
                     for tt in ([t] if not isinstance(t, (ast.Tuple, ast.List)) else t.elts):
-                        self._write(ctx, n, tt, eff)
+                        self._write(ctx, n, tt, eff, alias)
             elif isinstance(n, ast.NamedExpr):
                 pass
             elif isinstance(n, ast.Call) and A.dotted(n.func) in ('setattr', 'delattr') and n.args \
@@ -540,9 +555,16 @@ class EffectAnalyser:
         self._cache[key] = (out, ctx)
         return out, ctx
 
-    def _write(self, ctx, stmt, t, eff):
+    def _write(self, ctx, stmt, t, eff, alias=None):
         if ctx.selfname is None:
             return
+        if alias and isinstance(t, (ast.Subscript, ast.Attribute)):
+            r = t
+            while isinstance(r, (ast.Subscript, ast.Attribute)):
+                r = r.value
+            if isinstance(r, ast.Name) and r.id in alias and not ctx.is_self(r):
+                eff('WRITE_SELF', stmt, (alias[r.id], 'alias-store'))
+                return
         how = 'aug' if isinstance(stmt, ast.AugAssign) else ('del' if isinstance(stmt, ast.Delete) else 'rebind')
         if A.is_self_attr(t, None, ctx.selfname):
             eff('WRITE_SELF', stmt, (t.attr, how))
